@@ -208,6 +208,16 @@ Theorem C02_unparse : forall c0 bin i, is_set s_no_binary_name c0 = false ->
 Proof. exact parse_top_inv. Qed.
 Print Assumptions C02_unparse.
 
+(** THE PLANNED FORM, for trees without global arguments ([no_globals]): parsing the rendered
+    invocation returns exactly the matches its meaning computes. *)
+Theorem C02_unparse_denote : forall c0 bin i st, is_set s_no_binary_name c0 = false ->
+  valid (with_bin c0 bin) = true -> wf_inv (build_self (with_bin c0 bin)) i = true ->
+  no_globals (build_recursive (S (S (depth (build_self (with_bin c0 bin))))) (with_bin c0 bin)) = true ->
+  run_inv (build_self (with_bin c0 bin)) i = ROk st ->
+  parse_top c0 (bin :: render_inv i) = OOk (into_inner (mt st)).
+Proof. exact parse_top_denote. Qed.
+Print Assumptions C02_unparse_denote.
+
 (** when the child succeeds, the level's own entries are the fold of [react] over the level's
     occurrences, with the child's matches in the subcommand slot *)
 Theorem C02_unparse_sub_level : forall c its name j scb sub_st st, conv c = true ->
@@ -242,6 +252,9 @@ Print Assumptions C02_chain_kept.
 Theorem C02_unparse_tree_nonvacuous :
   is_set s_no_binary_name UnparseEx.t0 = false /\ valid (with_bin UnparseEx.t0 UnparseEx.tbin) = true /\
   wf_inv (build_self (with_bin UnparseEx.t0 UnparseEx.tbin)) UnparseEx.tinv = true /\
+  no_globals (build_recursive (S (S (depth (build_self (with_bin UnparseEx.t0 UnparseEx.tbin)))))
+                              (with_bin UnparseEx.t0 UnparseEx.tbin)) = true /\
+  (exists st, run_inv (build_self (with_bin UnparseEx.t0 UnparseEx.tbin)) UnparseEx.tinv = ROk st) /\
   render_inv UnparseEx.tinv =
     [[45; 45; 113; 117]; [45; 118; 111; 65]; [103; 111]; [45; 120]; [45; 45; 110; 97; 109; 101; 61; 86]; [70]] /\
   exists m sm,
@@ -252,6 +265,7 @@ Theorem C02_unparse_tree_nonvacuous :
     UnparseEx.raw_of [102] sm = Some [[[70]]].
 Proof.
   split; [exact UnparseEx.ex_tree_nobin|]. split; [exact UnparseEx.ex_tree_valid|]. split; [exact UnparseEx.ex_tree_wf|].
+  split; [exact UnparseEx.ex_tree_no_globals|]. split; [exact UnparseEx.ex_tree_run|].
   split; [exact UnparseEx.ex_tree_render|]. exact UnparseEx.ex_tree_parse.
 Qed.
 Print Assumptions C02_unparse_tree_nonvacuous.
